@@ -274,6 +274,9 @@ func (p *planner) collide(kind Item, i, j int, variant int, via string) (Item, s
 	if variant == 2 && j-i < 2 {
 		variant = 1
 	}
+	if variant == 4 && j-i < 2 {
+		variant = 0
+	}
 	note := fmt.Sprintf("collide %s via %q i=%d j=%d variant=%d", it, via, i, j, variant)
 	if via != "" {
 		if p.inOwnUpdates(j, via, it) {
@@ -296,6 +299,14 @@ func (p *planner) collide(kind Item, i, j int, variant int, via string) (Item, s
 			return it, "skip"
 		}
 		p.act(k, it, OpRemove)
+		p.act(j, it, OpSet)
+	case 4:
+		// a plugin in between takes the item over (remove-then-set); the later plain set collides with IT
+		k := i + 1 + g.r.Intn(j-i-1)
+		if p.hasMarkerOrSet(k, it) {
+			return it, "skip"
+		}
+		p.act(k, it, OpRemoveSet)
 		p.act(j, it, OpSet)
 	case 3:
 		if it.Kind == "ann" || it.Kind == "args" {
